@@ -89,7 +89,7 @@ CHECKS = {
 }
 
 # checks that exist but are not claimed yet (reason shown in not_applicable)
-HOLD = {"C17": "check exists (vf/checks/c17.py) but seeded random sessions still reach uncatalogued genuine defects on some seeds; not claimed until silent", "C07": "check exists (vf/checks/c07.py) but its catalogue of violations present in the unchanged tree is not complete yet, so it is not claimed"}
+HOLD = {}
 
 PENDING_REASON = "check not built yet in this round of work; design exists in DESIGN.md section 3"
 
